@@ -39,6 +39,34 @@ def run(chk):
     e10.run_U(chk, ("yastn.tensor.linalg", "yastn.tensor._merging"), floor1=5, floor2=1)
     e10.run_U10(chk, ("yastn.backend.backend_np",))
     run_S8(chk)
+    run_S9(chk)
+    # block lists of the decompositions (struct.t, struct.D, slices and the per-block limits zipped with them) are narrowed together
+    e3.run_I6(chk, ("yastn.tensor.linalg",), rule="I6", floor=3)
+
+
+def run_S9(chk):
+    """S9: tables that translate the option `which` (LM / SM / LR / SR) into the mode of scipy's Hermitian ARPACK driver map each request to
+    the mode that selects the same eigenvalues: LM -> LM, SM -> SM, LR -> LA (largest algebraic), SR -> SA; in particular two different
+    requests never share a mode."""
+    prog = chk.prog
+    chk.rule("S9", "translation tables of `which` for the Hermitian ARPACK driver map LM/SM/LR/SR to LM/SM/LA/SA", floor=1)
+    want = {"LM": "LM", "SM": "SM", "LR": "LA", "SR": "SA"}
+    m = prog.modules["yastn.backend.backend_np"]
+    for f in prog.all_funcs():
+        if f.module is not m:
+            continue
+        for n in ast.walk(f.node):
+            if isinstance(n, ast.Dict) and len(n.keys) >= 2 and all(isinstance(k, ast.Constant) and k.value in want for k in n.keys) \
+                    and all(isinstance(v, ast.Constant) and isinstance(v.value, str) for v in n.values):
+                got = {k.value: v.value for k, v in zip(n.keys, n.values)}
+                usesh = "eigsh" in A.text(f.node)
+                wrong = {k: v for k, v in got.items() if v != want[k]} if usesh else \
+                    ({k: v for k, v in got.items() if list(got.values()).count(v) > 1})
+                chk.verdict("S9", (f, n), f"{f.short}: {got}", False if wrong else True,
+                            f"{f.short}(): the table translates " + ", ".join(f"which='{k}' to '{v}'" for k, v in sorted(wrong.items())) +
+                            f" (expected {', '.join(k + ' -> ' + want[k] for k in sorted(wrong))}): the driver is asked for other eigenvalues than "
+                            f"the option names (e.g. the largest magnitudes instead of the largest algebraic ones, which differ as soon as the "
+                            f"spectrum has large negative values); sorting the returned values afterwards cannot bring back what was not computed")
 
 
 def run_S8(chk):
@@ -61,6 +89,8 @@ def run_S8(chk):
                     f"singular values, so for that solver the sector comes out in ascending order and the truncation `[:k]` keeps the smallest")
 
 MUTANTS = [
+    ('eigh_lowrank asks ARPACK for LM when LR is requested', 'yastn/backend/backend_np.py', "'LR': 'LA'", "'LR': 'LM'", 'S9'),
+    ('_meta_eigh filters slices with the already filtered minD', 'yastn/tensor/linalg.py', '        slices = tuple(x for x, mD in zip(slices, minD) if mD > 0)\n        minD = tuple(mD for mD in minD if mD > 0)\n        struct = struct._replace(t=at, D=aD)\n\n    if sU == -struct.s[0]:', '        minD = tuple(mD for mD in minD if mD > 0)\n        slices = tuple(x for x, mD in zip(slices, minD) if mD > 0)\n        struct = struct._replace(t=at, D=aD)\n\n    if sU == -struct.s[0]:', 'I6'),
     ('which swallowed by a named parameter', 'yastn/backend/backend_np.py', 'def eig(data, meta=None, sizes=(1, 1), **kwargs):', "def eig(data, meta=None, sizes=(1, 1), which='LM', **kwargs):", 'U10'),
     ('eigh maps legs with the inverse permutation', 'yastn/tensor/linalg.py', "    out_hl = tuple(a.trans[ax] for ax in out_hl)\n    out_hr = tuple(a.trans[ax] for ax in out_hr)\n    #\n    if not all(x == 0 for x in a.struct.n):\n        raise YastnError('eigh requires tensor charge to be zero.')", "    out_hl = tuple(a.trans.index(ax) for ax in out_hl)\n    out_hr = tuple(a.trans.index(ax) for ax in out_hr)\n    #\n    if not all(x == 0 for x in a.struct.n):\n        raise YastnError('eigh requires tensor charge to be zero.')", 'L1'),
     ('moveaxis normalises with the native leg count', 'yastn/tensor/_single.py', '    ldst = tuple(xx + a.ndim if xx < 0 else xx for xx in ldst)', '    ldst = tuple(xx + a.ndim_n if xx < 0 else xx for xx in ldst)', 'L1'),
